@@ -131,6 +131,7 @@ class Stats:
 		self.evals = 0
 		self.nontrivial_hashes = set()
 		self.nontrivial_enum = 0
+		self.nontrivial_batches = {}
 		self.classes = Counter()
 		self.samples = []
 		self._sample_classes = set()
@@ -148,7 +149,11 @@ class Stats:
 		for c in classes:
 			self.classes[c] += 1
 		if 'nontrivial_count' in labels:
-			self.nontrivial_enum += int(labels['nontrivial_count'])
+			if hashed:
+				# generated batch case: count its non-trivial elements once per distinct case
+				self.nontrivial_batches[case_hash(case)] = int(labels['nontrivial_count'])
+			else:
+				self.nontrivial_enum += int(labels['nontrivial_count'])
 		elif labels.get('nontrivial'):
 			if hashed:
 				self.nontrivial_hashes.add(case_hash(case))
@@ -174,6 +179,7 @@ class Stats:
 			evals=self.evals,
 			nontrivial_hashes=sorted(self.nontrivial_hashes),
 			nontrivial_enum=self.nontrivial_enum,
+			nontrivial_batches=self.nontrivial_batches,
 			classes=dict(self.classes),
 			samples=self.samples,
 			rejected=self.rejected,
@@ -449,6 +455,8 @@ def parent_main(args):
 	env = dict(os.environ)
 	env['PYTHONHASHSEED'] = '0'
 	env.setdefault('OMP_NUM_THREADS', '4')
+	env.setdefault('OMP_WAIT_POLICY', 'passive')
+	env.setdefault('GOMP_SPINCOUNT', '0')
 	try:
 		for i in range(nproc):
 			out = os.path.join(outdir, f'w{i}.json')
@@ -483,7 +491,10 @@ def parent_main(args):
 	hashes = set()
 	for r in results:
 		hashes.update(r['nontrivial_hashes'])
-	nontrivial = len(hashes) + sum(r['nontrivial_enum'] for r in results)
+	batches = {}
+	for r in results:
+		batches.update(r.get('nontrivial_batches', {}))
+	nontrivial = len(hashes) + sum(r['nontrivial_enum'] for r in results) + sum(batches.values())
 	classes = Counter()
 	for r in results:
 		classes.update(r['classes'])
